@@ -135,7 +135,7 @@ check('C17', 'E2-world',
       'outside a collection and hub delay windows, with a recording hub listener; after every step structural invariants on the real '
       'object, and at quiescence the multiset of structural messages must equal the diff of the before/after snapshots (nothing changed '
       'unannounced, nothing announced that did not happen). Sampling, not proof.',
-      'Across a delay window only net requirements are checked (plus a listening client that replays the announcements); update_id under dependent derived attributes is an open finding excluded by a guard; assigning an identifier the label it already has is not generated.',
+      'Across a delay window only net requirements are checked (plus a listening client that replays the announcements); no generator guard is left (update_id under dependent derived attributes was repaired in /repo, 22d4f13); assigning an identifier the label it already has is not generated.',
       'deterministic simulation: seeded mutation history with rejected calls and delay windows + invariant and message-vs-snapshot-diff oracle',
       'DESIGN.md section 7 C17')
 
